@@ -209,7 +209,18 @@ def settle(ctx, results, scenario_of, bounds_of=None):
                 ctx.ob("kani/" + h, True, detail, sample=True)
             continue
         if r.status in ("timeout", "error"):
-            ctx.ob("kani/" + h, None, detail + "\n" + r.log[-600:])
+            # the solver gave no verdict: the scenario (a total function of its raw bytes) is at least run natively on structured
+            # pseudo-random inputs; a concrete violating input against the real code is reported, absence of one proves nothing
+            if rp is None:
+                rp = Replay()
+            found = native_sample(rp, scenario_of(h), int(os.environ.get("VERIF_SEED", "0")))
+            if found:
+                raw, real, role, what = found
+                ctx.validated += 1
+                ctx.ob("kani/%s/%s" % (h, role), False, what)
+                ctx.violation(role, what + " | found by native sampling after CBMC gave no verdict (%s)" % detail, {"cmd": "scenario %s %s" % (scenario_of(h), raw.hex()), "real": real})
+            else:
+                ctx.ob("kani/" + h, None, detail + " (native sampling of the scenario found nothing)\n" + r.log[-600:])
             continue
         ctx.sat += 1
         if r.raw is None:
@@ -244,6 +255,34 @@ def settle(ctx, results, scenario_of, bounds_of=None):
                 [x.hex() for x in getattr(r, "raws", [r.raw])][:3], r.failed_checks[:3]))
     if rp:
         rp.close()
+
+
+def native_sample(rp, scen, seed, n=6000):
+    """-> (raw, answer, role, description) of the first structured pseudo-random input on which the scenario reports a violation"""
+    import random
+    rnd = random.Random(1000003 * seed + len(scen))
+    names = code_names()
+    for k in range(n):
+        ln = 64
+        mode = k % 4
+        if mode == 0:
+            raw = bytes(rnd.choice((0, 1, 2, 3, 4, 5, 6, 8, 12, 0x7f, 0x80, 0xff)) if rnd.random() < 0.7 else rnd.randrange(256) for _ in range(ln))
+        elif mode == 1:
+            raw = bytes(rnd.randrange(16) for _ in range(ln))
+        elif mode == 2:
+            raw = bytes([rnd.randrange(13), 4 * rnd.randrange(4), rnd.randrange(2)] + [rnd.choice((0, 1, 2, 3, 0xff)) for _ in range(8)] + [rnd.randrange(256)] +
+                        [rnd.choice((0, 0, 0x41, 0x62, 0x80, 0xc3, 0xe9, 0xff)) for _ in range(ln - 12)])
+        else:
+            raw = bytes(rnd.randrange(256) for _ in range(ln))
+        real = rp.ask("scenario %s %s" % (scen, raw.hex()))
+        code = real.get("code")
+        if "panic" in real:
+            return raw, real, "%s/panic/%s" % (scen, normalise_panic(real["panic"], real.get("at", ""))), "%s panics on input %s: %s (%s)" % (scen, raw.hex(), real["panic"], real.get("at"))
+        if code is not None and code >= 100:
+            return raw, real, "%s/%s" % (scen, names.get(code, "code%d" % code)), "%s violates %s on input %s" % (scen, names.get(code, code), raw.hex())
+        if "error" in real:
+            return None
+    return None
 
 
 def normalise_panic(msg, at=""):
